@@ -349,8 +349,10 @@ def check_result(plan, res, out, refs, axis, n0, n1):
 
 def check_models(res, bg, out, sigs, fs, f_range, n0, n1):
     models = bg.models
-    ok_shape = isinstance(models, list) and len(models) == n0 and all(
-        isinstance(r, list) and len(r) == n1 for r in models)
+    try:
+        ok_shape = len(models) == n0 and all(len(r) == n1 for r in models)
+    except Exception:
+        ok_shape = False
     if not ok_shape or len(bg) != n0:
         res.violate('models-mismatch', 'shape', 'models does not have the nested shape %dx%d' % (n0, n1))
         return
